@@ -64,6 +64,9 @@ type c09Case struct {
 	Proto       bool    `json:"start_in_protobuf_mode"`
 	Ops         []c09Op `json:"ops"`
 	KillAt      int     `json:"kill_after_acks,omitempty"`
+	// KillDelayUs: the SIGKILL is sent this long after the acknowledgement was read, i.e. while the
+	// next operation is running (a range deletion over a long log takes milliseconds)
+	KillDelayUs int `json:"kill_delay_us,omitempty"`
 	// Offset is robust.MessageOffset for this case: 0 as in the package's own tests, or the flag
 	// default of a real node (ids of id-less messages default to offset + raft index)
 	Offset uint64 `json:"message_offset,omitempty"`
@@ -716,6 +719,9 @@ func c09KillRun(c c09Case, dir string) *vh.Failure {
 			break
 		}
 	}
+	if c.KillDelayUs > 0 {
+		time.Sleep(time.Duration(c.KillDelayUs) * time.Microsecond)
+	}
 	cmd.Process.Signal(syscall.SIGKILL)
 	go io.Copy(io.Discard, stdout)
 	cmd.Wait()
@@ -801,8 +807,25 @@ func TestVerifC09Kill(t *testing.T) {
 	}
 	rapid.Check(t, func(rt *rapid.T) {
 		c := c09Case{Proto: rapid.Bool().Draw(rt, "protomode"), Offset: rapid.SampledFrom(c09Offsets).Draw(rt, "message_offset")}
-		c.Ops = genOps(rt, rapid.IntRange(3, 30).Draw(rt, "nops"), true, c.Proto)
-		c.KillAt = rapid.IntRange(1, len(c.Ops)).Draw(rt, "killat")
+		if rapid.IntRange(0, 5).Draw(rt, "longlog") == 0 {
+			// the kill is aimed at the range deletion over a long log
+			c.Ops = genLongOps(rt, c.Proto)
+			c.KillAt = len(c.Ops)
+			for k, op := range c.Ops {
+				if op.Kind == "delrange" {
+					c.KillAt = k
+					break
+				}
+			}
+			if c.KillAt == 0 {
+				c.KillAt = 1
+			}
+			c.KillDelayUs = rapid.IntRange(0, 4000).Draw(rt, "killdelay")
+		} else {
+			c.Ops = genOps(rt, rapid.IntRange(3, 30).Draw(rt, "nops"), true, c.Proto)
+			c.KillAt = rapid.IntRange(1, len(c.Ops)).Draw(rt, "killat")
+			c.KillDelayUs = rapid.SampledFrom([]int{0, 0, 50, 300, 1000}).Draw(rt, "killdelay")
+		}
 		nt, labels := c09Nontrivial(c)
 		rec.Case(vh.Fingerprint(c), nt, append(labels, "c09:kill"), func() interface{} { return c })
 		if f := runOne(c); f != nil {
